@@ -154,10 +154,15 @@ func compare(res *Result, c *Case, model SX) {
 		}
 		seen[name] = true
 		mf, ok := model.Field(name)
-		if ok && len(mf.L) == 2 && (name == "acc0" || name == "acc1" || name == "acc2") {
+		if ok && len(mf.L) == 2 && strings.HasSuffix(name, "acc") || (name == "acc0" || name == "acc1" || name == "acc2") {
 			mf = L(mf.L[0], canonAcc(mf.L[1]))
 		}
 		res.Compared[name]++
+		if name == "uacc" && ok {
+			// Is against local sentinels is not meaningful under the renaming simulation of an
+			// unknowing process (the local mark carries the unmangled family name)
+			mf, f = dropAccField(mf, "os"), dropAccField(f, "os")
+		}
 		if !ok || mf.String() != f.String() {
 			res.NMismatch++
 			if len(res.Mismatches) < 40 {
@@ -255,4 +260,18 @@ func main() {
 	} else {
 		os.Stdout.Write(bs)
 	}
+}
+
+func dropAccField(x SX, name string) SX {
+	if x.Kind != 'l' || len(x.L) != 2 || x.L[1].Kind != 'l' {
+		return x
+	}
+	var keep []SX
+	for _, f := range x.L[1].L {
+		if f.Kind == 'l' && len(f.L) > 0 && f.L[0].Sym == name {
+			continue
+		}
+		keep = append(keep, f)
+	}
+	return L(x.L[0], L(keep...))
 }
